@@ -17,6 +17,7 @@ import plumpy
 from plumpy import process_states
 from plumpy.base import state_machine
 
+from .. import explore
 from ..vloop import Horizon, VLoop
 
 ID = 'C03'
@@ -369,7 +370,13 @@ def check_scenario(scenario: str) -> Dict[str, Any]:
         for occurrence in range(1, n + 1):
             plan = (site, occurrence, position)
             run = Run(scenario, plan)
-            run.execute()
+            try:
+                with explore.watchdog(2 * explore.WATCHDOG_S):
+                    run.execute()
+            except explore.Hang as hang:
+                res['violations'].append({'clause': 'hang', 'features': {'site': site, 'position': position, 'scenario': scenario},
+                                          'detail': str(hang), 'case': {'scenario': scenario, 'site': site, 'occurrence': occurrence, 'position': position}})
+                continue
             res['n'] += 1
             if ENV.injected is not None:
                 res['reached'] += 1
